@@ -45,6 +45,9 @@ C13Checks(e) ==
                 + (IF i < n /\ R[i + 1].p = 0
                      THEN Chk("C13.chuXi", << k, x.l, x.f >>, ("除夕" \in SeqSet(x.f)) <=> (R[i + 1].l[1] # x.l[1]))
                      ELSE 0)
+                \* extension (outside C13): the traditional festivals on fixed lunar dates
+                + SumSeq(SetToSeq(LunarFixedFestivals), LAMBDA q :
+                    Chk("EXT.lunar.fixed-date-festival", << k, x.l, q[3] >>, (q[3] \in SeqSet(x.f)) <=> (x.l[2] = q[1] /\ x.l[3] = q[2])))
                 + Chk("C13.hanShi", << k, x.o >>, ("寒食节" \in SeqSet(x.o)) <=> (J = HanShiDay(T)))
                 + Chk("C13.chunShe", << k, x.o >>, ("春社" \in SeqSet(x.o)) <=> (J = SheDay(T, PosLiChun)))
                 + Chk("C13.qiuShe", << k, x.o >>, ("秋社" \in SeqSet(x.o)) <=> (J = SheDay(T, PosLiQiu))))
